@@ -13,7 +13,7 @@ from harness.core import CaseResult, hit, rng_for
 
 RULE = ('kind=pool: schedules over {attempt k, release the held end-of-data reply of k, wait out the idle timeout, settle} for 1..6 requests x '
         'pool size {1,2,3,unbounded} x idle timeout {none, finite} x transport {smtp, http} x per-request downstream behaviour {accept, hold then '
-        'accept, all recipients refused, message refused 5xx/4xx, connection dropped in the transaction, stall until the command timeout, '
+        'accept, all recipients refused, one recipient refused and the message deferred (mixed kinds), message refused 5xx/4xx, connection dropped in the transaction, stall until the command timeout, '
         'server-side timeout (421 + close) after the message} x per-connection behaviour {normal, refused, closed right after the handshake}; '
         'all orders for <= 3 requests at quick, seeded beyond. kind=deque: random operation sequences over the 8 BlockingDeque methods. '
         'distinct = distinct case descriptor; non-trivial = at least 2 requests or a non-accept behaviour (pool), >= 3 operations (deque).')
@@ -23,7 +23,7 @@ IDLE = 0.25
 CT = 0.15
 REQUEUE_FRESH = 0          # the model parameter: may a connection that has delivered nothing put its request back?
 
-BEHAV = ['ok', 'ok', 'hold', 'hold', 'rcptfail', 'eodfail', 'eodtemp', 'dropmail', 'stall', 'then421', 'thenclose']
+BEHAV = ['ok', 'ok', 'hold', 'hold', 'rcptfail', 'eodfail', 'eodtemp', 'mixedfail', 'mixedfail', 'dropmail', 'stall', 'then421', 'thenclose']
 
 
 def gen_pool_case(rng, transport=None, nreq=None):
@@ -34,8 +34,8 @@ def gen_pool_case(rng, transport=None, nreq=None):
     beh = {}
     for k in range(n):
         b = rng.choice(BEHAV)
-        if transport == 'http' and b in ('rcptfail', 'eodtemp', 'then421'):
-            b = {'rcptfail': 'eodfail', 'eodtemp': 'eodfail', 'then421': 'thenclose'}[b]
+        if transport == 'http' and b in ('rcptfail', 'eodtemp', 'then421', 'mixedfail'):
+            b = {'rcptfail': 'eodfail', 'eodtemp': 'eodfail', 'then421': 'thenclose', 'mixedfail': 'eodfail'}[b]
         beh[str(k)] = b
     conn = {}
     if rng.random() < 0.2:
@@ -84,7 +84,7 @@ def cases(tier, seed, phase):
     idx = 0
     for size in (1, 2):
         for idle in (True, False):
-            for b0, b1 in itertools.product(['ok', 'hold', 'rcptfail', 'dropmail', 'then421', 'thenclose', 'stall'], repeat=2):
+            for b0, b1 in itertools.product(['ok', 'hold', 'rcptfail', 'mixedfail', 'dropmail', 'then421', 'thenclose', 'stall'], repeat=2):
                 idx += 1
                 if tier == 'quick' and idx % 2 and b0 != 'hold':
                     continue
@@ -342,6 +342,7 @@ class SmtpPeers(object):
         in_txn = False         # a transaction is open (MAIL seen, not completed / reset)
         rid = None
         rcpt_ok = 0
+        nrcpt = 0
         while True:
             line = f.readline()
             self.activity += 1
@@ -359,6 +360,7 @@ class SmtpPeers(object):
                 rid = int(m.group(1)) if m else -1
                 in_txn = True
                 rcpt_ok = 0
+                nrcpt = 0
                 b = self.case['beh'].get(str(rid), 'ok')
                 if b == 'dropmail':
                     return
@@ -368,14 +370,20 @@ class SmtpPeers(object):
                 send(('250 2.1.0 sender s%d ok\r\n' % rid).encode())
             elif u.startswith(b'RCPT'):
                 b = self.case['beh'].get(str(rid), 'ok')
-                if b == 'rcptfail':
+                if b == 'rcptfail' or (b == 'mixedfail' and nrcpt == 0):
+                    nrcpt += 1
                     send(('550 5.1.1 no such user for s%d\r\n' % rid).encode())
                 else:
+                    nrcpt += 1
                     rcpt_ok += 1
                     send(('250 2.1.5 rcpt for s%d ok\r\n' % rid).encode())
             elif u.startswith(b'DATA'):
                 if rcpt_ok == 0:
                     send(('554 5.5.1 no valid recipients s%d\r\n' % rid).encode())
+                    continue
+                if self.case['beh'].get(str(rid), 'ok') == 'mixedfail':
+                    # one recipient was refused for good, now the message is refused for the moment: a failure of mixed kinds
+                    send(('451 4.3.0 not now s%d\r\n' % rid).encode())
                     continue
                 send(b'354 go ahead\r\n')
                 while True:
@@ -613,7 +621,7 @@ def run_pool(case, model):
                 hits.append(hit('c19.attempt-raised-non-relay-error.' + type(box['exc']).__name__,
                                 'attempt() raised something that is not a relay error', observed=text[:300]))
             b = case['beh'].get(str(rid), 'ok')
-            if 'ret' in box and b in ('rcptfail', 'eodfail', 'eodtemp', 'dropmail', 'stall') and 'queued' in text:
+            if 'ret' in box and b in ('rcptfail', 'eodfail', 'eodtemp', 'dropmail', 'stall', 'mixedfail') and 'queued' in text:
                 hits.append(hit('c19.success-for-refused-message', 'success reported for a message the peer refused', observed=text[:300]))
         for v in peers.violations:
             hits.append(hit('c19.connection-reused-without-reset', 'a new MAIL arrived on a connection whose previous transaction was neither '
